@@ -37,6 +37,21 @@ func genQid(r *Rng, idx int, mode string) *Enc {
 		for k := r.Range(0, 8); k > 0; k-- {
 			name += Pick(r, parts)
 		}
+		if r.Chance(35) {
+			// long names with a quote character around typical identifier-length limits (63, 64, 128)
+			limit := Pick(r, []int{63, 64, 128, 30})
+			b := make([]byte, limit+r.Range(-3, 8))
+			for i := range b {
+				b[i] = byte('a' + i%26)
+			}
+			for k := r.Range(1, 3); k > 0; k-- {
+				pos := limit - 1 + r.Range(-2, 2)
+				if pos >= 0 && pos < len(b) {
+					b[pos] = Pick(r, []byte{'"', '`'})
+				}
+			}
+			name = string(b)
+		}
 	}
 	e.Tok("Q")
 	e.Str(name)
